@@ -21,9 +21,10 @@ import (
 
 func ntPairs() [][2]int {
 	if thorough() {
-		return [][2]int{{2, 2}, {3, 2}, {3, 3}, {4, 2}, {4, 3}, {4, 4}, {5, 2}, {5, 3}, {5, 5}, {6, 4}, {7, 4}, {8, 5}}
+		return [][2]int{{2, 2}, {3, 2}, {3, 3}, {4, 2}, {4, 3}, {4, 4}, {5, 2}, {5, 3}, {5, 4}, {5, 5}, {6, 2}, {6, 4}, {7, 3}, {7, 4}, {8, 5}}
 	}
-	return [][2]int{{2, 2}, {3, 2}, {3, 3}, {4, 2}, {4, 3}, {5, 3}}
+	// every (n,t) with 2<=t<=n<=5
+	return [][2]int{{2, 2}, {3, 2}, {3, 3}, {4, 2}, {4, 3}, {4, 4}, {5, 2}, {5, 3}, {5, 4}, {5, 5}}
 }
 
 // genSubset draws a subset of 0..n-1 with at least min elements, in a drawn order.
